@@ -776,6 +776,14 @@ def r7_destination(ctx, prog, o):
                 if x['id'] == d['ref']['id'] and 'arrayLen' in x:
                     cap = x['size']
         n = strip(args[si]).get('v') if si < len(args) else None
+        if n is None and si < len(args) and decl_of(args[si]) is not None:
+            # a measured length: strnlen(argument, K) copies the whole argument up to K bytes
+            from engine.dataflow import def_exprs as _dx
+            for dx in _dx(o, decl_of(args[si])['id']):
+                sx = strip(dx)
+                if sx is not None and sx.k == 'CallExpr' and sx.get('callee') in ('strnlen', '__strnlen') and \
+                        pt.is_derived(arg(sx, 0)) and strip(arg(sx, 1)).get('v') is not None:
+                    n = strip(arg(sx, 1))['v']
         if cap is None or n is None:
             continue
         chk.ob('R7', 'destination-copied-whole[%s:%s]' % (o.name, render(d)[:30]), n >= cap - 1, c.where(), o.name,
